@@ -56,8 +56,8 @@ def optRep (c : UInt8) : Option Nat → Option Bytes
   | some n => some (rep c n)
 
 /-- index of the first failing guard -/
-def firstFail (env : String → Nat) (gs : List (String × String)) : Option Nat :=
-  let rec go (i : Nat) : List (String × String) → Option Nat
+def firstFail (env : Opnd → Nat) (gs : List (Opnd × Opnd)) : Option Nat :=
+  let rec go (i : Nat) : List (Opnd × Opnd) → Option Nat
     | [] => none
     | (l, r) :: rest => if env l > env r then some i else go (i + 1) rest
   go 0 gs
